@@ -24,7 +24,21 @@ def op_chains(rng, q, focus):
                 k = rng.choice([0, 1, n - 1, n, n + 1, 2 * n, -1, -n, -n - 2, rng.randrange(-2 * n, 2 * n + 1), n // 2, 2, 3, 4, n // 3, 10**9 + rng.randrange(100), -(10**9) - rng.randrange(100)])
                 ops.append((rng.choice("RL"), k))
             elif x < (0.7 if focus != "C15" else 0.4):
-                ops.append(("RC",))
+                if rng.random() < 0.3:      # what to carry over is the caller's choice: flags, or replacement values
+                    kw = {}
+                    for name, val in (("id", "rcid"), ("name", "rcname"), ("description", "rc of it"), ("dbxrefs", ["db:9"])):
+                        x = rng.random()
+                        if x < 0.3:
+                            kw[name] = True
+                        elif x < 0.45:
+                            kw[name] = val
+                    if rng.random() < 0.3:
+                        kw["annotations"] = True
+                    if rng.random() < 0.2:
+                        kw["letter_annotations"] = True
+                    ops.append(("RC", kw))
+                else:
+                    ops.append(("RC",))
                 if focus == "C14":
                     ops.append(("COMM", rng.choice([1, n - 1, rng.randrange(0, 2 * n + 1), n // 2, n + 2])))
             elif x < 0.78 and focus == "C13":
